@@ -16,6 +16,7 @@ import (
 	"sort"
 	"strings"
 	"sync"
+	"sync/atomic"
 	"testing/synctest"
 	"time"
 )
@@ -91,8 +92,8 @@ type Event struct {
 
 // Sim is one simulated execution.
 type Sim struct {
-	tickLag bool // ticker values suffer drawn delays (SetTickLag)
-	tickNoSkip bool // late tickers do not skip missed periods (SetTickNoSkip)
+	tickLag      bool // ticker values suffer drawn delays (SetTickLag)
+	tickNoSkip   bool // late tickers do not skip missed periods (SetTickNoSkip)
 	mu           sync.Mutex
 	cfg          Config
 	tasks        []*Task
@@ -291,6 +292,12 @@ func (s *Sim) taskMain(t *Task, fn func()) {
 	fn()
 }
 
+// progress counts scheduling steps of all runs of this process; read by the worker's hang watchdog.
+var progress atomic.Uint64
+
+// Progress returns a counter that moves whenever a simulated run takes a scheduling step.
+func Progress() uint64 { return progress.Load() }
+
 type abortRun struct{}
 
 // maxTasks bounds the goroutines of one run (see Go).
@@ -362,6 +369,7 @@ func (s *Sim) loop() {
 		}
 		if fire {
 			s.steps++
+			progress.Add(1)
 			s.clock.fireNext(s)
 			continue
 		}
@@ -386,6 +394,7 @@ func (s *Sim) loop() {
 
 func (s *Sim) dispatch(next *Task) {
 	s.steps++
+	progress.Add(1)
 	if s.lastRun != nil && s.lastRun != next {
 		s.switches++
 		if s.switchPairs.n < 4096 {
@@ -610,6 +619,7 @@ func (s *Sim) yield(site string, ch bool) *Task {
 		next, fire := s.decide(t)
 		if next == t && !fire {
 			s.steps++
+			progress.Add(1)
 			s.event(t, "cont", site)
 			t.spin = false
 			s.runHooks()
